@@ -567,6 +567,200 @@ INTERPOLATIONS = [
 ]
 
 
+def ob_printer_edges(run, mir, rp):
+    """Four places where a legal Mamba program used to come out as text Python refuses (found by probing around seeds, round 8)."""
+    NODE_RS = printkern.NODE_RS
+    fnp = e2.find1(mir, file=printkern.AST_MOD_RS, name="to_py")
+    ind = z3.BitVec("ind", 64)
+
+    def text_of(ex, p):
+        return printkern.describe(ex, p.state, printkern.as_pieces(ex, p.state, p.ret), ind, {})
+
+    def syntax_replay(what, progs):
+        def f(model):
+            bad = []
+            for role, src, ann in progs:
+                st_, out = rp.transpile(src, ann)
+                if st_ != "OK":
+                    continue            # rejected with diagnostics: not this property's business
+                try:
+                    compile(out, "<emitted>", "exec")
+                except SyntaxError as e:
+                    bad.append((role, f"{src!r} (annotate={ann}) is emitted as {out.strip()[:160]!r}, which Python refuses: {e}"))
+            if bad:
+                return {"reproduced": True, "role": f"{what}:" + "+".join(sorted({b[0] for b in bad})), "detail": bad[0][1]}
+            return {"reproduced": False, "detail": f"{len(progs)} programs are emitted as valid Python"}
+        return f
+
+    def finish(ob, ex, claim, replay, nprogs):
+        e2.prove(run, ob, ex, [z3.ULE(ind, printkern.MAXIND)], claim, {}, replay)
+        if ob.status == "discharged":
+            r_ = replay({})
+            run.validated += nprogs
+            if r_["reproduced"]:
+                ob.status = "pending"
+                ob.inconclusive("still refused by Python although the kernel is as specified: " + r_["detail"][:300])
+
+    # A. a body whose block has no statement (comments only)
+    ob = run.ob("empty-block-body-filled", "E2", "newline_if_body (how the printer writes the body of def / if / else / while / for / match arms): a Block WITHOUT statements - the "
+                "parser builds one for a body that consists of comments only - is written as an indented `pass`, never as nothing", ["newline_if_body"])
+    try:
+        fnb = e2.find1(mir, file=printkern.AST_MOD_RS, name="newline_if_body")
+        ex = printkern.executor(mir)
+        st = State()
+        blk = e2.mk_variant(NODE_RS, "Core", "Block", {"statements": Seq()})
+        ends = e2.run_kernel(run, ex, fnb, [Ref(ex.new_cell(st, blk)), ind], st, [z3.ULE(ind, printkern.MAXIND)])
+        rets = [p for p in ends if p.kind == "return"]
+        if not rets:
+            raise Unsupported("newline_if_body: no return path for an empty block")
+        ok = all(any(pc[0] == "lit" and "pass" in pc[1] for pc in text_of(ex, p)) for p in rets)
+        progs = [(f"comment-only-{k}", src, ann) for ann in (False, True) for k, src in (
+            ("function-body", "def f() =>\n    # todo\nf()\n"), ("then-branch", "if True then\n    # nothing\nelse\n    print(1)\n"), ("else-branch", "if True then\n    print(1)\nelse\n    # nothing\n"),
+            ("while-body", "def c := False\nwhile c do\n    # nothing\n"), ("for-body", "for i in [1] do\n    # nothing\n"), ("method-body", "class A\n    def m(self) =>\n        # todo\n"),
+            ("match-arm", "match 1\n    1 =>\n        # nothing\n    _ => print(2)\n"))]
+        finish(ob, ex, z3.BoolVal(bool(ok)), syntax_replay("empty-block", progs), len(progs))
+    except Unsupported as e:
+        ob.inconclusive(str(e))
+
+    # C. a string literal that spans lines
+    ob = run.ob("string-literal-single-line", "E2", "to_py, Str and FStr arms: the text between the quotes is the literal with every line break written as the escape `\\n` "
+                "(str::replace('\\n', \"\\\\n\")) - a Mamba string may span lines, a Python \"...\" literal may not", ["to_py (Str, FStr)"])
+    try:
+        okc, ex = True, None
+        for kind in ("Str", "FStr"):
+            ex = printkern.executor(mir)
+            st = State()
+            lit = Opq(z3.Const("string", Val), "String")
+            core = e2.mk_variant(NODE_RS, "Core", kind, {"string": lit})
+            ends = e2.run_kernel(run, ex, fnp, [Ref(ex.new_cell(st, core)), ind], st, [z3.ULE(ind, printkern.MAXIND)])
+            rets = [p for p in ends if p.kind == "return"]
+            if len(rets) != 1:
+                raise Unsupported(f"{kind}: {len(rets)} return paths")
+            p = rets[0]
+            reps = [e_ for e_ in p.events if e_["name"].split("::")[-1] == "replace" and z3.eq(e_["argvals"][0], ex.to_val(p.state, lit))]
+            good = [e_ for e_ in reps if "10" in str(e_["args"][1]) or "\\n" in repr(e_["args"][1]) or "\n" in str(getattr(e_["args"][1], "s", ""))]
+            pieces = printkern.as_pieces(ex, p.state, p.ret)
+            vals = [pc[1] for pc in pieces if pc[0] == "val"]
+            uses = bool(good) and any(z3.eq(ex.to_val(p.state, v), ex.to_val(p.state, good[-1]["ret"])) for v in vals)
+            raw = any(z3.eq(ex.to_val(p.state, v), ex.to_val(p.state, lit)) for v in vals)
+            okc = okc and uses and not raw
+        progs = [("multi-line-string", "def s := \"line one\nline two\"\nprint(s)\n", a) for a in (False, True)] + \
+                [("multi-line-interpolated-string", "def n := 2\ndef s := \"line {n}\nline two\"\nprint(s)\n", False), ("single-line-string", "def s := \"one\"\nprint(s)\n", False)]
+        finish(ob, ex, z3.BoolVal(bool(okc)), syntax_replay("string-literal", progs), len(progs))
+    except Unsupported as e:
+        ob.inconclusive(str(e))
+
+    # E. the argument list of a function type without arguments
+    ob = run.ob("callable-without-arguments", "E2", "to_py, Type arm: the nameless type with no components - the argument list of `() -> R` - is written `[]` "
+                "(Callable[[], R]), not as the empty text (Callable[, R])", ["to_py (Type)"])
+    try:
+        ex = printkern.executor(mir)
+        st = State()
+        core = e2.mk_variant(NODE_RS, "Core", "Type", {"lit": StrC(""), "generics": Seq()})
+        ends = e2.run_kernel(run, ex, fnp, [Ref(ex.new_cell(st, core)), ind], st, [z3.ULE(ind, printkern.MAXIND)])
+        rets = [p for p in ends if p.kind == "return"]
+        if not rets:
+            raise Unsupported("Type arm: no return path")
+        oke = all("".join(pc[1] for pc in text_of(ex, p) if pc[0] == "lit") == "[]" and all(pc[0] == "lit" for pc in text_of(ex, p)) for p in rets)
+        progs = [("function-type-without-arguments", "def f(g: () -> Int) -> Int => g()\nprint(f(\\ => 3))\n", True), ("function-type-without-arguments-variable", "def g: () -> Int := \\ => 3\nprint(g())\n", True),
+                 ("function-type-with-argument", "def f(g: Int -> Int) -> Int => g(1)\n", True)]
+        finish(ob, ex, z3.BoolVal(bool(oke)), syntax_replay("callable-arguments", progs), len(progs))
+    except Unsupported as e:
+        ob.inconclusive(str(e))
+
+    # B. `pass` in tail position
+    ob = run.ob("tail-pass-stays-pass", "E2", "append_ret (how the value of a body becomes a return): a `pass` in tail position stays `pass` - `return pass` is not Python", ["append_ret"])
+    try:
+        fna = e2.find1(mir, file="src/generate/convert/mod.rs", name="append_ret")
+        ex = Exec(mir, max_paths=2000)
+        st = State()
+        ends = e2.run_kernel(run, ex, fna, [Ref(ex.new_cell(st, Agg("Core", "Pass", [])))], st)
+        rets = [p for p in ends if p.kind == "return" and e2.solve(ex, list(p.cond))[0] == z3.sat]
+        if not rets:
+            raise Unsupported("append_ret(Pass): no feasible return path")
+        okb = True
+        for p_ in rets:
+            r = p_.ret
+            r = ex.read_ref(p_.state, r) if isinstance(r, Ref) else r
+            okb = okb and isinstance(r, Agg) and r.variant == "Pass"
+        progs = [("pass-as-function-value", "def f() -> None => pass\nf()\n", a) for a in (False, True)] + [("pass-as-last-statement", "def f() -> None =>\n    print(1)\n    pass\nf()\n", False)]
+        e2.prove(run, ob, ex, [], z3.BoolVal(bool(okb)), {}, syntax_replay("tail-pass", progs))
+        if ob.status == "discharged":
+            r_ = syntax_replay("tail-pass", progs)({})
+            run.validated += len(progs)
+            if r_["reproduced"]:
+                ob.status = "pending"
+                ob.inconclusive("still refused by Python although the kernel is as specified: " + r_["detail"][:300])
+    except Unsupported as e:
+        ob.inconclusive(str(e))
+
+    # F. a tuple of variables that receives the value of a block-if / match
+    ob = run.ob("tuple-target-not-annotated", "E2", "append_assign (how `def target := <if / match / handle in statement form>` pushes the assignment into the branches): when the target "
+                "is a tuple of variables the assignment it builds carries NO annotation - `a, b: Tuple[int, int] = ..` is not Python (only single targets can be annotated)", ["append_assign"])
+    try:
+        fnaa = e2.find1(mir, file="src/generate/convert/mod.rs", name="append_assign")
+        okf, ex = True, None
+        nf = 0
+        for target in ("Tuple", "TupleLiteral"):
+            ex = Exec(mir, max_paths=2000)
+            st = State()
+            tgt = e2.mk_variant(NODE_RS, "Core", target, {"elements": Opq(z3.Const("elements", Val), "Vec<Core>")})
+            value = e2.mk_variant(NODE_RS, "Core", "Id", {"lit": Opq(z3.Const("v", Val), "String")})
+            nm = Agg("Option", "Some", [Opq(z3.Const("name", Val), "Name")])
+            ends = e2.run_kernel(run, ex, fnaa, [Ref(ex.new_cell(st, value)), Ref(ex.new_cell(st, tgt)), Ref(ex.new_cell(st, nm)), Ref(ex.new_cell(st, Opq(z3.Const("imp", Val), "Imports")))], st)
+            for p_ in ends:
+                if p_.kind != "return" or e2.solve(ex, list(p_.cond))[0] != z3.sat:
+                    continue
+                r = p_.ret
+                r = ex.read_ref(p_.state, r) if isinstance(r, Ref) else r
+                if not (isinstance(r, Agg) and r.variant == "VarDef" and r.names):
+                    okf = False
+                    continue
+                nf += 1
+                ty = r.fields[list(r.names).index("ty")]
+                okf = okf and isinstance(ty, Agg) and ty.variant == "None"
+        if not nf:
+            raise Unsupported("append_assign: no VarDef built for a tuple target")
+        progs = [("tuple-from-block-if", "def c := True\ndef (a, b) := if c then\n    (1, 2)\nelse\n    (3, 4)\nprint(a)\n", a_) for a_ in (False, True)] + \
+                [("tuple-from-match", "def (a, b) := match 1\n    1 => (1, 2)\n    _ => (3, 4)\nprint(b)\n", False), ("single-from-block-if", "def c := True\ndef a := if c then\n    1\nelse\n    3\nprint(a)\n", True)]
+        e2.prove(run, ob, ex, [], z3.BoolVal(bool(okf)), {}, syntax_replay("tuple-target", progs))
+        if ob.status == "discharged":
+            r_ = syntax_replay("tuple-target", progs)({})
+            run.validated += len(progs)
+            if r_["reproduced"]:
+                ob.status = "pending"
+                ob.inconclusive("still refused by Python although the kernel is as specified: " + r_["detail"][:300])
+    except Unsupported as e:
+        ob.inconclusive(str(e))
+
+    # D. constructor parameters: no parameter without default behind one with a default
+    ob = run.ob("class-arguments-defaults-ordered", "E2", "GenericClass::try_from (where the class arguments become the parameters of the constructor): a class argument without default "
+                "behind one with a default is refused, as the same is for functions - Python does not accept such a parameter list", ["<GenericClass as TryFrom<&AST>>::try_from"])
+    try:
+        GEN_CL = "src/check/context/clss/generic.rs"
+        cands = [f for n, f in mir.fns.items() if f.impl_at and f.impl_at[0].endswith(GEN_CL) and n.split("::")[-1] == "try_from" and "AST" in f.args[0][1]]
+        if len(cands) != 1:
+            raise Unsupported(f"GenericClass::try_from: {len(cands)} candidates")
+        gfa = e2.rust_struct("src/check/context/arg/generic.rs", "GenericFunctionArg")
+        idx = gfa.index("has_default")
+        # the decision reads the `has_default` flag of an element of the collected argument list and ends in Err: look for it in the MIR of the function
+        txt = "\n".join(str(st_) for b in cands[0].blocks.values() for st_ in b.stmts) + "\n".join(str(b.term) for b in cands[0].blocks.values())
+        reads = len(re.findall(r"'field', [^\n]{0,200}?, %d, 'bool'" % idx, txt))
+        ex = Exec(mir, max_paths=10)
+        progs = [("class-argument-without-default-behind-default", "class A(def x: Int := 1, def y: Int)\ndef a := A(1, 2)\n", a_) for a_ in (False, True)] + \
+                [("plain-class-argument-without-default-behind-default", "class A(x: Int := 1, y: Int)\n    def s: Int := x + y\n", False), ("class-arguments-ordered", "class A(def y: Int, def x: Int := 1)\ndef a := A(2)\n", False)]
+        e2.prove(run, ob, ex, [], z3.BoolVal(reads >= 1), {}, syntax_replay("class-arguments", progs))
+        if ob.status == "discharged":
+            r_ = syntax_replay("class-arguments", progs)({})
+            run.validated += len(progs)
+            if r_["reproduced"]:
+                ob.status = "pending"
+                ob.inconclusive("still refused by Python although the flag is looked at: " + r_["detail"][:300])
+        run.samples.append({"obligation": ob.id, "reads_of_has_default": reads})
+    except Unsupported as e:
+        ob.inconclusive(str(e))
+
+
 def ob_interpolation(run, mir, rp, mode="syntax"):
     """The expressions inside a string's {..} are Mamba expressions: they have to go through the converter like any other."""
     import convkern
@@ -659,6 +853,7 @@ def run(run):
     ob_literals(run, mir, rp)
     ob_ternary_operands(run, mir, rp)
     ob_interpolation(run, mir, rp, "syntax")
+    ob_printer_edges(run, mir, rp)
     rp.close()
     # an operand that needs delimiting and does not get it can be a syntax error too (`a == not b`): the C10 machinery with
     # "Python refuses the text" as the only failure
